@@ -9,10 +9,10 @@ use std::collections::{BTreeMap, BTreeSet};
 use std::panic::{catch_unwind, AssertUnwindSafe};
 
 #[derive(Clone, Copy, Debug, PartialEq, Eq, PartialOrd, Ord)]
-enum Op { AK, BA, CAB, AA1, LdA, StA, CK, Nop, IntrAB }
-const OPS: [Op; 9] = [Op::AK, Op::BA, Op::CAB, Op::AA1, Op::LdA, Op::StA, Op::CK, Op::Nop, Op::IntrAB];
+enum Op { AK, BA, CAB, AA1, LdA, StA, CK, Nop, IntrAB, IntrW2 }
+const OPS: [Op; 10] = [Op::AK, Op::BA, Op::CAB, Op::AA1, Op::LdA, Op::StA, Op::CK, Op::Nop, Op::IntrAB, Op::IntrW2];
 
-fn writes(o: Op) -> Vec<&'static str> { match o { Op::AK | Op::AA1 | Op::LdA => vec!["a"], Op::BA => vec!["b"], Op::CAB => vec!["c"], Op::CK => vec!["g"], Op::IntrAB => vec!["a"], _ => vec![] } }
+fn writes(o: Op) -> Vec<&'static str> { match o { Op::AK | Op::AA1 | Op::LdA => vec!["a"], Op::BA => vec!["b"], Op::CAB => vec!["c"], Op::CK => vec!["g"], Op::IntrAB => vec!["a"], Op::IntrW2 => vec!["a", "b"], _ => vec![] } }
 fn reads(o: Op) -> Vec<&'static str> { match o { Op::BA | Op::AA1 | Op::StA => vec!["a"], Op::CAB => vec!["a", "b"], Op::IntrAB => vec!["b"], _ => vec![] } }
 fn is_assign_or_load(o: Op) -> bool { matches!(o, Op::AK | Op::BA | Op::CAB | Op::AA1 | Op::LdA | Op::CK) }
 
@@ -29,6 +29,7 @@ fn emit(b: &mut Block, o: Op) {
         Op::CK => b.assign(scalar("g", 1), expr_const(1, 1)),
         Op::Nop => b.nop(),
         Op::IntrAB => b.intrinsic(Intrinsic::new("i", "i a, b", vec![], Some(vec![e("a")]), Some(vec![e("b")]), vec![0x90])),
+        Op::IntrW2 => b.intrinsic(Intrinsic::new("j", "j a, b", vec![], Some(vec![e("a"), e("b")]), Some(vec![]), vec![0x91])),
     }
 }
 
